@@ -209,6 +209,11 @@ class TransitWorld:
                 evs.append(("turn", r.name))
         for link in self.net.links:
             for side in (0, 1):
+                t = link.ends[side].transport
+                if t.producer is not None and t.streaming is False and not t.closed and not t.disconnecting:
+                    evs.append(("pull", link.idx, side))
+        for link in self.net.links:
+            for side in (0, 1):
                 end = link.ends[side]
                 if not end.transport.closed and link.pending(side) > 0 and not end.transport.reading_paused:
                     for n in self._chunks(link, side):
@@ -253,7 +258,7 @@ class TransitWorld:
         return sorted(set([1, n]))
 
     def _is_eager(self, ev):
-        if ev[0] == "turn":
+        if ev[0] in ("turn", "pull"):
             return True
         return ev[0] not in self.explored
 
@@ -297,6 +302,9 @@ class TransitWorld:
         elif k == "turn":
             r = [r for r in self.reactors if r.name == ev[1]][0]
             self._guard(r.fire_one)
+        elif k == "pull":
+            t = self.net.links[ev[1]].ends[ev[2]].transport
+            self._guard(t.producer.resumeProducing)
         elif k == "deliver":
             link = self.net.links[ev[1]]
             self._guard(deliver, link, ev[2], ev[3])
